@@ -244,9 +244,11 @@ def md5_password(user, password, salt):
     return 'md5' + hashlib.md5(inner.encode() + salt).hexdigest()
 
 
-def send_cancel(port, pid, key, host='127.0.0.1'):
+def send_cancel(port, pid, key, host='127.0.0.1', wait=True):
     s = socket.create_connection((host, port), timeout=3)
     s.sendall(W.cancel_packet(pid, key))
+    if not wait:
+        return s      # the caller closes it
     try:
         s.settimeout(3)
         s.recv(16)
